@@ -34,6 +34,7 @@ type c05Budget struct {
 	Sends, Faults, Swaps int
 	Timers               int    // silent-peer timer firings (either side)
 	Begin                string `json:",omitempty"` // BeginString of both engines (default FIX.4.2)
+	NextExpected         bool   `json:",omitempty"` // both engines exchange NextExpectedMsgSeqNum(789) on the Logon
 }
 
 type c05Case struct {
@@ -53,7 +54,11 @@ func c05Build(file bool, scratch string, path []uint8, b c05Budget) (p *sessmc.P
 	if bs == "" {
 		bs = "FIX.4.2"
 	}
-	p, err = sessmc.NewPairBS(dir, bs)
+	var extra map[string]string
+	if b.NextExpected {
+		extra = map[string]string{"EnableNextExpectedMsgSeqNum": "Y"}
+	}
+	p, err = sessmc.NewPairExtra(dir, bs, extra)
 	if err != nil {
 		return nil, false, err
 	}
@@ -198,24 +203,32 @@ func init() {
 func runC05(c *core.Ctx) {
 	quick := c.Quick()
 	budgets := []c05Budget{{Sends: 2, Faults: 1, Swaps: 1}, {Sends: 1, Faults: 2, Swaps: 1}, {Sends: 1, Faults: 1, Swaps: 1, Timers: 1}, {Sends: 1, Faults: 1, Swaps: 0, Begin: "FIX.4.1"}}
+	// both engines configured with EnableNextExpectedMsgSeqNum=Y (the Logon carries tag 789 and the recovery is implied)
+	budgets = append(budgets, c05Budget{Sends: 1, Faults: 1, Swaps: 0, Begin: "FIX.4.4", NextExpected: true})
 	maxDepth := 60
 	if quick {
 		c.SetDeadline(5 * time.Minute)
 	} else {
 		budgets = []c05Budget{{Sends: 2, Faults: 2, Swaps: 1}, {Sends: 3, Faults: 2, Swaps: 1}, {Sends: 2, Faults: 3, Swaps: 2}, {Sends: 2, Faults: 2, Swaps: 1, Timers: 2},
-			{Sends: 2, Faults: 2, Swaps: 1, Begin: "FIX.4.1"}, {Sends: 2, Faults: 2, Swaps: 1, Begin: "FIX.4.0"}, {Sends: 2, Faults: 2, Swaps: 1, Begin: "FIX.4.4"}}
+			{Sends: 2, Faults: 2, Swaps: 1, Begin: "FIX.4.1"}, {Sends: 2, Faults: 2, Swaps: 1, Begin: "FIX.4.0"}, {Sends: 2, Faults: 2, Swaps: 1, Begin: "FIX.4.4"},
+			{Sends: 2, Faults: 2, Swaps: 1, Begin: "FIX.4.4", NextExpected: true}}
 		maxDepth = 90
 		c.SetDeadline(55 * time.Minute)
 	}
 	budget := budgets[0]
 	c.SetRule(fmt.Sprintf("BFS over the deviation events {application send on either side (also while disconnected), connection cut (loses all in-flight bytes in both directions), engine restart on the file store, delivering the other wire first, the silent-peer timer firing on either side (TestRequest racing the recovery)} interleaved at every step of the default schedule of two real sessions (initiator + acceptor) joined by two FIFO wires through the real stream parser; budget profiles (sends per side / faults / ordering deviations / timer firings) quick 2/1/1/0, 1/2/1/0, 1/1/1/1 and FIX.4.1 1/1/0/0, thorough 2/2/1/0, 3/2/1/0, 2/3/2/0, 2/2/1/2 and FIX.4.0/4.1/4.4 2/2/1/0 (first: %d/%d/%d); states de-duplicated by the canonical key of both sessions + wires + deliveries; safety in every state, convergence probe (reconnect, quiesce, up to 3 heartbeat rounds) from every state", budget.Sends, budget.Faults, budget.Swaps))
 	c.Assume("sequence resets disabled; FIX.4.2; heartbeat timers are fired by the probe, not by wall-clock", "a connection cut loses in-flight bytes of both directions at the same instant (combined with ordering deviations for asymmetric loss)",
-		"restarts only with the file store; the memory-store run explores cuts only")
+		"restarts only with the file store; the memory-store run explores cuts only",
+		"one profile runs both engines with EnableNextExpectedMsgSeqNum=Y (FIX.4.4): outside the statement's default configuration, explored because the option replaces the recovery protocol; not replayed on the real pair")
 	scratch, cleanup := core.Scratch("c05")
 	defer cleanup()
 	var e2eItems []e2eItem
 	var e2eMuLocal sync.Mutex
 	for bi, budget := range budgets {
+		opt := ""
+		if budget.NextExpected {
+			opt = " EnableNextExpectedMsgSeqNum=Y"
+		}
 		for _, file := range []bool{false, true} {
 			type node struct{ path []uint8 }
 			seen := sync.Map{}
@@ -255,7 +268,7 @@ func runC05(c *core.Ctx) {
 								}
 								atomic.AddInt64(&transitions, 1)
 								if r, w := c05Safety(p); r != "" {
-									c.Violation(fmt.Sprintf("%s file=%v", r, file), w+" | "+c05Describe(path)+" | trace: "+strings.Join(p.Trace, "; "), "C05/path", c05Case{File: file, Path: path, Budget: budget})
+									c.Violation(fmt.Sprintf("%s file=%v%s", r, file, opt), w+" | "+c05Describe(path)+" | trace: "+strings.Join(p.Trace, "; "), "C05/path", c05Case{File: file, Path: path, Budget: budget})
 									p.Close()
 									continue
 								}
@@ -273,7 +286,7 @@ func runC05(c *core.Ctx) {
 								}
 								atomic.AddInt64(&states, 1)
 								local = append(local, node{path})
-								if budget.Timers == 0 && (!quick || bi == 0 || bi == 3) {
+								if budget.Timers == 0 && !budget.NextExpected && (!quick || bi == 0 || bi == 3) {
 									// one representative path per model state goes to the real engines
 									e2eMuLocal.Lock()
 									e2eItems = append(e2eItems, e2eItem{File: file, Path: path, Budget: budget})
@@ -282,7 +295,7 @@ func runC05(c *core.Ctx) {
 								// convergence probe from this state
 								atomic.AddInt64(&probes, 1)
 								if r, w := c05Converge(p); r != "" {
-									c.Violation(fmt.Sprintf("%s file=%v", r, file), w+" | "+c05Describe(path)+" | trace: "+strings.Join(p.Trace, "; "), "C05/path", c05Case{File: file, Path: path, Budget: budget, Probe: true})
+									c.Violation(fmt.Sprintf("%s file=%v%s", r, file, opt), w+" | "+c05Describe(path)+" | trace: "+strings.Join(p.Trace, "; "), "C05/path", c05Case{File: file, Path: path, Budget: budget, Probe: true})
 								}
 								p.Close()
 							}
@@ -307,7 +320,7 @@ func runC05(c *core.Ctx) {
 			if file {
 				store = "file"
 			}
-			c.Set(fmt.Sprintf("depth_completed_%s_%d_%d_%d_t%d%s", store, budget.Sends, budget.Faults, budget.Swaps, budget.Timers, budget.Begin), depthDone)
+			c.Set(fmt.Sprintf("depth_completed_%s_%d_%d_%d_t%d%s%s", store, budget.Sends, budget.Faults, budget.Swaps, budget.Timers, budget.Begin, map[bool]string{true: "_789"}[budget.NextExpected]), depthDone)
 			c.AddCounter("convergence_probes", probes)
 			if capped {
 				c.Cap(fmt.Sprintf("%s store: search stopped at depth %d", store, depthDone))
